@@ -227,7 +227,10 @@ exponentials up to time `t`, `Grid.solOp`) with
 3. `dU/dt = −i·H(t)·U(t)`: right derivative at EVERY real `t`, two-sided derivative at every `t` that is not a merged
    grid point (stated entry by entry, so that no matrix norm has to be named);
 4. `U` is the ONLY such function: every `V` continuous on `[0, Tend]` with `V(0) = 1` and right derivative
-   `−i·H(t)·V(t)` on `[0, Tend)` equals `U` on `[0, Tend]` (Grönwall).
+   `−i·H(t)·V(t)` on `[0, Tend)` equals `U` on `[0, Tend]` (Grönwall);
+5. and also the only one in the larger class that asks nothing at the grid points but continuity: every `V` continuous
+   on `[0, Tend]` with `V(0) = 1` and (two-sided) derivative `−i·H(t)·V(t)` at the times of `(0, Tend)` that are not merged
+   grid points equals `U` on `[0, Tend]` (Grönwall between consecutive grid points, continuity across them).
 
 So the product of the slice exponentials is the time-ordered exponential of the stated Hamiltonian: an analytic
 fact, formerly trusted. -/
@@ -248,6 +251,10 @@ theorem run_analytically_is_time_ordered {ι : Type*} [Fintype ι] [DecidableEq 
       (∀ V : ℝ → Matrix ι ι ℂ, ContinuousOn V (Set.Icc 0 ((Tend : ℚ) : ℝ)) → V 0 = 1 →
         (∀ t ∈ Set.Ico (0 : ℝ) ((Tend : ℚ) : ℝ), ∀ i j : ι, HasDerivWithinAt (fun s => V s i j)
           (((-Complex.I) • (statedHam drift ctrls chans Tend t * V t)) i j) (Set.Ici t) t) →
+        ∀ t ∈ Set.Icc (0 : ℝ) ((Tend : ℚ) : ℝ), V t = U t) ∧
+      (∀ V : ℝ → Matrix ι ι ℂ, ContinuousOn V (Set.Icc 0 ((Tend : ℚ) : ℝ)) → V 0 = 1 →
+        (∀ t ∈ Set.Ioo (0 : ℝ) ((Tend : ℚ) : ℝ), (∀ q ∈ T, ((q : ℚ) : ℝ) ≠ t) → ∀ i j : ι,
+          HasDerivAt (fun s => V s i j) (((-Complex.I) • (statedHam drift ctrls chans Tend t * V t)) i j) t) →
         ∀ t ∈ Set.Icc (0 : ℝ) ((Tend : ℚ) : ℝ), V t = U t) := by
   let T := sortU (chans.map (·.1)).flatten
   have hT : T.Pairwise (· < ·) := sortU_pairwise _
@@ -281,7 +288,8 @@ theorem run_analytically_is_time_ordered {ι : Type*} [Fintype ι] [DecidableEq 
     solOp_continuous drift ctrls chans T,
     fun t => (solOp_solves drift ctrls chans T hT h0 Tend hlast hsub t).1,
     fun t => (solOp_solves drift ctrls chans T hT h0 Tend hlast hsub t).2,
-    fun V hc hV0 hV => solOp_unique drift ctrls chans T hT h0 Tend hlast hsub V hc hV0 hV⟩
+    fun V hc hV0 hV => solOp_unique drift ctrls chans T hT h0 Tend hlast hsub V hc hV0 hV,
+    fun V hc hV0 hV => solOp_unique_off_grid drift ctrls chans T hT h0 Tend hlast hsub V hc hV0 hV⟩
 
 -- non-vacuity: two channels ending at different times (hypotheses: `GoodGrid` by computation, `SepAll` as in the example
 -- after `merged_contains`), drift σz, controls σx and a non-Hermitian matrix; the stated Hamiltonian in the slot [1, 3/2)
